@@ -216,8 +216,48 @@ def h_match(ctx):
         ctx.check('C08.raises[match]<=nothing', False, 'property', where=e.where, meta={'escaping': e.cls})
 
 
+def h_specificity(ctx):
+    """calculate_specificity is called by match() for every matching rule OUTSIDE the try that skips unevaluable rules: it must raise nothing, whatever the
+    (already validated) match expression looks like - an argument of a pattern function may be any literal (`fuzzy("X", 0.9)`, `startswith(5)` behind a
+    short-circuit), and len() of a value that is not a string raises TypeError"""
+    import ast as _ast
+    sp = Spec()
+    exc_table(sp)
+    I = Interp(ctx, sp)
+    SeqObj = z3.SeqSort(ObjS)
+    Walk, Tree = UF('ast.walk', ObjS, SeqObj), UF('parse_expression', StrS, ObjS)
+    is_str = UF('isinstance_str', ObjS, BoolS)
+    rule = Obj(ctx.fresh('rule', ObjS), 'MerchantRule')
+    sp.field_sorts[('MerchantRule', 'match_expr')] = StrS
+    sp.field_sorts[('MerchantRule', 'priority')] = IntS
+
+    def m_parse(I_, a, k, n):
+        only_expression_error(I_, 'parse_expression')
+        return Obj(Tree(to_z3(a[0], StrS)), 'astnode')
+    sp.models['expr_parser.parse_expression'] = Func(m_parse)
+    sp.models['ast.walk'] = Func(lambda I_, a, k, n: SymSeq([Walk(to_z3(a[0]))], None, ['astnode']))
+    for f_, srt in (('func', ('obj', 'astnode')), ('value', ('obj', 'astnode')), ('id', StrS), ('attr', StrS), ('args', ('seq', ObjS, 'astnode'))):
+        sp.field_sorts[('astnode', f_)] = srt
+
+    def m_len(I_, v, node):
+        # len(x): fine for a string, TypeError for a number / None / bool literal
+        if I_.ctx.branch(z3.Not(is_str(v.expr)), 'len.of_non_string'):
+            raise PyRaise('TypeError', (), 'len')
+        return UF('len.of.str.constant', ObjS, IntS)(v.expr)
+    sp.field_sorts[('astnode', 'len')] = m_len
+    fi = find_function(ME + 'calculate_specificity')
+    fr = Frame(fi, {})
+    for nd in _ast.walk(fi.node):
+        if isinstance(nd, _ast.For):
+            sp.loops[(fi.qualname, fr.loop_ordinals[id(nd)])] = LoopSpec(lambda I_, env, k, it: {}, {'pattern_count': lambda c: c.fresh('pattern_count', IntS),
+                                                                                                      'pattern_length': lambda c: c.fresh('pattern_length', IntS),
+                                                                                                      'constraint_kinds': lambda c: SymSet(c.fresh('constraint_kinds', z3.SetSort(StrS)))})
+    expect_raises(ctx, I, lambda: I.call_function(fi, [rule]), [], 'calculate_specificity')
+
+
 def harnesses(tier):
     hs = [
+        Harness('calculate_specificity', h_specificity, [ME + 'calculate_specificity'], prune=True),
         Harness('TransactionEvaluator.evaluate', h_dispatch('TransactionEvaluator'), [EP + 'TransactionEvaluator.evaluate']),
         Harness('ExpressionEvaluator.evaluate', h_dispatch('ExpressionEvaluator'), [EP + 'ExpressionEvaluator.evaluate']),
         Harness('evaluate_transaction', h_entry('evaluate_transaction', 4), [EP + 'evaluate_transaction']),
